@@ -162,8 +162,9 @@ def single_distributions(d, ctx):
                     allow_if=mm.explicit_refusal)
         b = ctx.lib(ComplexBinghamTrainer().fit, ys, saliency=sal,
                     clause='scaled-input-raises')
-        require_close(a.covariance, b.covariance, 'bingham-fit', rtol=1e-6,
-                      atol=1e-6)
+        # iterative solver: agreement to its termination tolerance only
+        require_close(a.covariance, b.covariance, 'bingham-fit', rtol=1e-3,
+                      atol=1e-3)
     elif which == 'bingham-logpdf':
         lam = -np.sort(rng.uniform(0, 30, size=(*lead, D)), axis=-1)
         lam = lam - lam.max(axis=-1, keepdims=True)
